@@ -8,6 +8,8 @@
 //    w r i k  async_visit with the (ptr, index, value, args) visitor signature (same function)
 //    B barrier   F for_all(index,value) dump   V for_all(value) dump   C copy-construct array #1 from #0   T n  select target
 //    Z len [fill]  resize(len[, fill]) — followed by NO barrier
+//    E form fam c salt k  for_all (form i: (index,value&), v: (value&)) whose callback modifies the value (fam-op c) and emits
+//       k rounds of async fam-updates to the visited element, its right neighbour and a far element of the SAME array
 //  bag ops (items uint64_t):
 //    i r x  async_insert(x)   t r x d  async_insert(x,d)   v r d x,x,..|-  async_insert(vector,d)
 //    B barrier   D dump (local_for_all order + local_size)   R rebalance   L seed  local_shuffle   G seed  global_shuffle + barrier
@@ -90,6 +92,47 @@ static int run_array(ygm::comm& world, int argc, char** argv) {
       hc::out(o.str()); world.barrier(); continue;
     }
     if (c == 'z') { hc::out("size " + std::to_string(t.size())); continue; }
+    if (c == 'E') {
+      // for_all whose callback updates the array it iterates: own modification through the reference plus, per round,
+      // async updates to the visited element, to its right neighbour and to a far element (one operator family)
+      char form = f[1][0], fam = f[2][0]; u64 cc = U(f[3]), salt = U(f[4]), k = U(f[5]);
+      size_t len = t.size();
+      arr_t* pa = &t;
+      auto send = [pa, fam](size_t i, u64 x) {
+        switch (fam) {
+          case 'p': pa->async_plus(i, x); break;
+          case 'x': pa->async_multiplies(i, x); break;
+          case 'a': pa->async_bit_and(i, x); break;
+          case 'o': pa->async_bit_or(i, x); break;
+          default: pa->async_bit_xor(i, x); break;
+        }
+      };
+      auto body = [send, fam, cc, salt, k, len](size_t g, u64& v) {
+        switch (fam) {
+          case 'p': v = v + cc; break;
+          case 'x': v = v * cc; break;
+          case 'a': v = v & cc; break;
+          case 'o': v = v | cc; break;
+          default: v = v ^ cc; break;
+        }
+        for (u64 j = 0; j < k; ++j) {
+          u64 x = (g * 3 + salt + j) % 97 + 1;
+          send(g, x);
+          send((g + 1) % len, x + 1);
+          send((g * 7 + salt + j) % len, x + 2);
+        }
+      };
+      if (form == 'i') {
+        t.for_all([body](const size_t idx, u64& v) { body(idx, v); });
+      } else {
+        // value-only form: the callback learns its index from the rank's first owned index and a counter
+        size_t first = 0; while (first < len && !t.is_mine(first)) ++first;
+        size_t n = 0;
+        t.for_all([body, first, &n](u64& v) { body(first + n, v); ++n; });
+      }
+      world.barrier();
+      continue;
+    }
     // explicit resize: NO barrier is added after it, the script issues updates right away
     if (c == 'Z') { if (f.size() > 2) t.resize(U(f[1]), U(f[2])); else t.resize(U(f[1])); continue; }
     if ((int)U(f[1]) != me) continue;
